@@ -25,7 +25,7 @@ RULE = ('process programs (sync/async steps, waits with resume values, continuat
 RULE += ('; also: live persisters with the writing instance running on (lost work), mid-step saves, another loop being current at load time, aliased context objects, checkpoints written from the paused hook of a pause requested inside a step')
 ASSUMPTIONS = ['steps depend only on persisted state by construction (trace and scripts live in persisted members / ctx / inputs)',
                'WorkChains waiting on futures are not checkpoint points (they cannot be saved)']
-REQUIRED = ['checkpoint_at_every_boundary', 'paused_hook_checkpoints', 'restores', 'kinds/process', 'kinds/outline', 'transport/pickle', 'crash_in_wait', 'multi_restore', 'traces_compared', 'ctx_compared',
+REQUIRED = ['loaded_twice', 'checkpoint_at_every_boundary', 'paused_hook_checkpoints', 'restores', 'kinds/process', 'kinds/outline', 'transport/pickle', 'crash_in_wait', 'multi_restore', 'traces_compared', 'ctx_compared',
             'inputs/none', 'inputs/empty', 'inputs/given', 'outline_nodes/if', 'outline_nodes/while', 'elif_or_else_body_crash', 'lost_work_restores', 'transport/mem-live', 'transport/pkfile-live', 'transport/bundle-live', 'codec_processes', 'midstep_saves', 'loaded_with_other_loop_current']
 BOUNDS = {'quick': 'basic family + 12 random programs, 60 outlines, crash subsets <=2', 'thorough': '+150 random programs, 800 outlines, subsets <=3, persister/YAML transports'}
 
@@ -87,7 +87,8 @@ def gen_cases(tier, seed):
                     sets = rng.sample(sets, 40)
                 for cs in sets:
                     yield {'kind': 'process', 'name': name, 'program': prog, 'inputs': inputs, 'ctx': ctxprog, 'crash': cs,
-                           'transport': rng.choice(transports), 'codec': rng.random() < 0.25, 'other_loop_current': rng.choice([False, False, False, False, False, False, True, True, 'none'])}
+                           'transport': rng.choice(transports), 'codec': rng.random() < 0.25, 'other_loop_current': rng.choice([False, False, False, False, False, False, True, True, 'none']),
+                           'load_twice': len(cs) % 2 == 1}
                 # checkpoints written by a persister; the writing instance runs on for 1-3 boundaries before the crash (lost work)
                 for cs in rng.sample(sets, min(len(sets), 6 if tier == 'quick' else 20)):
                     yield {'kind': 'process', 'name': name, 'program': prog, 'inputs': inputs, 'ctx': ctxprog, 'crash': cs,
@@ -122,7 +123,7 @@ def gen_cases(tier, seed):
             sets = rng.sample(sets, 25)
         for cs in sets:
             yield {'kind': 'outline', 'ast': ast, 'preds': preds, 'rets': rets, 'emit': i % 2 == 0, 'crash': cs, 'transport': rng.choice(transports),
-                   'midsave': i % 3 == 0}
+                   'midsave': i % 3 == 0, 'load_twice': i % 2 == 1}
         for cs in rng.sample(sets, min(len(sets), 6 if tier == 'quick' else 12)):
             yield {'kind': 'outline', 'ast': ast, 'preds': preds, 'rets': rets, 'emit': i % 2 == 0, 'crash': cs,
                    'transport': rng.choice(['mem-live', 'pkfile-live', 'bundle-live']), 'lag': rng.randint(0, 3)}
@@ -226,10 +227,11 @@ def run_case(case):
             obs['lost_work_restores'] = int(case['lag'] > 0 and r.get('restores', 0) > 0)
         else:
             r = persist.run_with_crashes(make, case['crash'], resume, transport=_transport(case['transport'], workdir),
-                                         other_loop_current=case.get('other_loop_current') or False,
+                                         other_loop_current=case.get('other_loop_current') or False, load_twice=bool(case.get('load_twice')),
                                          paused_crashes=() if case.get('paused_crash') is None else (case['paused_crash'],))
             obs['paused_hook_checkpoints'] = sum(1 for e in r.get('log', ()) if e[0] == 'checkpoint-in-paused-hook')
             obs['loaded_with_other_loop_current'] = int(bool(case.get('other_loop_current')) and r.get('restores', 0) > 0)
+            obs['loaded_twice'] = int(bool(case.get('load_twice')) and r.get('restores', 0) > 0)
             obs['loaded_with_no_loop_current'] = int(case.get('other_loop_current') == 'none' and r.get('restores', 0) > 0)
     finally:
         shutil.rmtree(workdir, ignore_errors=True)
